@@ -649,12 +649,10 @@ func renderDepth(v ssa.Value, d int) string {
 	case *ssa.TypeAssert:
 		return renderDepth(x.X, d+1) + ".(" + types.TypeString(x.AssertedType, shortQual) + ")"
 	case *ssa.Phi:
-		var es []string
-		for _, e := range x.Edges {
-			es = append(es, renderDepth(e, d+2))
+		if x.Comment != "" {
+			return x.Comment
 		}
-		sort.Strings(es)
-		return "φ(" + strings.Join(es, "|") + ")"
+		return "φ"
 	case *ssa.MakeClosure:
 		return "closure:" + x.Fn.Name()
 	case *ssa.MakeMap:
